@@ -1452,11 +1452,13 @@ RCP<const Boolean> Complement::contains(const RCP<const Basic> &a) const
 
 RCP<const Set> Complement::set_union(const RCP<const Set> &o) const
 {
-    // A' U C = (A n C')'
-    RCP<const Set> ocomplement = o->set_complement(universe_);
-    RCP<const Set> intersect
-        = SymEngine::set_intersection({container_, ocomplement});
-    return intersect->set_complement(universe_);
+    // (U \ A) u C = (U u C) \ (A \ C); C need not be a subset of U
+    RCP<const Set> universe = SymEngine::set_union({universe_, o});
+    RCP<const Set> container = SymEngine::set_complement(container_, o);
+    if (is_a<EmptySet>(*container)) {
+        return universe;
+    }
+    return make_rcp<const Complement>(universe, container);
 }
 
 RCP<const Set> Complement::set_intersection(const RCP<const Set> &o) const
